@@ -5,6 +5,7 @@ Every theorem is for an arbitrary face list: non-manifold edges, repeated indice
 repeated faces and unreferenced vertices included.
 -/
 import TrimeshVerif.Proofs.Topology
+import TrimeshVerif.Proofs.AngleDefect
 namespace TV.C05
 open TV TV.Grouping TV.Topology
 
@@ -99,6 +100,47 @@ theorem C05_components (n : Nat) (es : List (Nat × Nat)) (a b : Nat) (ha : a < 
       | step _ he hb hc ih => exact .step ih he hb hc
   rw [key]
   exact components_spec n es a b ha hb
+
+
+/-! ### vertex_defects: the angle-defect law -/
+
+section defects
+open TV.AngleDefect
+variable {K : Type} [CommRing K]
+
+/-- **angle-defect law (any mesh)**: give every face three corner angles that add up to `π` (whatever they
+    are, `π` any element of the ring); then the defects `2π − (sum of the angles at the vertex)` of the
+    referenced vertices add up to `π (2 V − F)` — non-manifold edges, repeated faces and unreferenced
+    vertices included -/
+theorem C05_defect_sum (pi : K) (fa : List (FA K)) (n : Nat)
+    (hang : ∀ x ∈ fa, x.2.1 + x.2.2.1 + x.2.2.2 = pi)
+    (hn : ∀ v ∈ corners (fa.map (·.1)), v < n) :
+    ((Finset.range n).filter (fun v => v ∈ corners (fa.map (·.1)))).sum (defect pi fa)
+      = pi * (2 * (((Finset.range n).filter (fun v => v ∈ corners (fa.map (·.1)))).card : K) - fa.length) :=
+  defect_sum pi fa n hang hn
+
+/-- **discrete Gauss-Bonnet**: on a closed surface (every undirected edge used exactly twice — what
+    `C05_watertight` says `is_watertight` tests) the defects add up to `2π · (V − E + F)`, the Euler number
+    of `C05_euler` -/
+theorem C05_gauss_bonnet (pi : K) (fa : List (FA K)) (n : Nat)
+    (hang : ∀ x ∈ fa, x.2.1 + x.2.2.1 + x.2.2.2 = pi)
+    (hn : ∀ v ∈ corners (fa.map (·.1)), v < n)
+    (hclosed : ∀ e ∈ edgesSorted (fa.map (·.1)), (edgesSorted (fa.map (·.1))).count e = 2) :
+    ((Finset.range n).filter (fun v => v ∈ corners (fa.map (·.1)))).sum (defect pi fa)
+      = 2 * pi * ((((Finset.range n).filter (fun v => v ∈ corners (fa.map (·.1)))).card : K)
+          - ((edgesSorted (fa.map (·.1))).eraseDups.length : K) + (fa.length : K)) :=
+  defect_sum_closed pi fa n hang hn hclosed
+
+/-- non-vacuity: the tetrahedron with all angles `π/3` (here `π = 3`, angles `1`) is closed, and its four
+    defects `2·3 − 3·1 = 3` add up to `12 = 2 · 3 · (4 − 6 + 4)` -/
+example :
+    let fa : List (FA Int) := [((0, 2, 1), (1, 1, 1)), ((0, 1, 3), (1, 1, 1)), ((1, 2, 3), (1, 1, 1)),
+      ((0, 3, 2), (1, 1, 1))]
+    (∀ x ∈ fa, x.2.1 + x.2.2.1 + x.2.2.2 = 3) ∧
+    (∀ e ∈ edgesSorted (fa.map (·.1)), (edgesSorted (fa.map (·.1))).count e = 2) ∧
+    (∀ v ∈ corners (fa.map (·.1)), v < 4) := by decide
+
+end defects
 
 /-! non-vacuity: the hypotheses of the theorems above are only index bounds; concrete meshes
     (tetrahedron, cube, non-manifold fans) are evaluated through the driver in the correspondence run
